@@ -549,8 +549,8 @@ impl Check for C06 {
     }
     fn scenarios(&self, tier: Tier) -> u64 {
         match tier {
-            Tier::Quick => 200,
-            Tier::Thorough => 10000,
+            Tier::Quick => 400,
+            Tier::Thorough => 12000,
         }
     }
     fn rule_text(&self) -> String {
